@@ -217,3 +217,21 @@ Proof.
   destruct (put_frame KU 64 d o 0 64 d1 o1 ltac:(lia) ltac:(lia) Ho Hbd Q1) as [-> [_ [_ [B1 _]]]]. cbn [fst snd].
   apply put_no_panic; [lia|lia|lia|exact B1].
 Qed.
+
+(** the empty data segment (no satellites, no signals) is 96 zero bits and reads back as empty *)
+Theorem msm_empty_decodes tbl a b d o d' o' : bytes_ok d = true -> 0 <= o ->
+  msm_encode tbl a b (d, o) (VStruct [VList []; VList []]) = Ok (d', o') ->
+  msm_decode tbl a b d' o = Ok (VStruct [VList []; VList []], o').
+Proof.
+  intros Hb Ho H. unfold msm_encode in H. replace ((64 <? zlen (@nil val)) || (64 <? zlen (@nil val))) with false in H by reflexivity. cbn [fst snd] in H.
+  destruct (put KU 64 d o 0 64) as [[d1 o1]|e|] eqn:P1; cbn [bind] in H; try discriminate.
+  destruct (put_frame KU 64 d o 0 64 d1 o1 ltac:(lia) ltac:(lia) Ho Hb P1) as [-> [F1 [L1 [B1 A1]]]]. cbn [fst snd] in H.
+  destruct (put_frame KU 32 d1 (o + 64) 0 32 d' o' ltac:(lia) ltac:(lia) ltac:(lia) B1 H) as [-> [F2 [L2 [B2 A2]]]].
+  assert (R64 : representable KU 64 0) by (cbn [representable]; split; [lia|apply Z.pow_pos_nonneg; lia]).
+  assert (R32 : representable KU 32 0) by (cbn [representable]; split; [lia|apply Z.pow_pos_nonneg; lia]).
+  destruct (put_parse_roundtrip KU 64 d o 0 64 ltac:(lia) ltac:(lia) Ho F1 Hb R64) as [x [Px Pa1]]. rewrite P1 in Px. inversion Px; subst x.
+  destruct (put_parse_roundtrip KU 32 d1 (o + 64) 0 32 ltac:(lia) ltac:(lia) ltac:(lia) F2 B1 R32) as [y [Py Pa2]]. rewrite H in Py. inversion Py; subst y.
+  unfold msm_decode.
+  rewrite <- (parse_ext KU 64 d1 d' o 64 ltac:(lia) ltac:(lia) Ho B1 B2 ltac:(apply (agree_sub _ _ 0 (o + 64)); [exact A2|lia|lia])), Pa1. cbn [bind].
+  rewrite Pa2. cbn [bind]. reflexivity.
+Qed.
